@@ -56,6 +56,8 @@ def gen_timeline(rng, n, off_min, boundaries):
                     d_ = 28
                 same_next_year = ((c14.days_from_civil(y_ + 1, mo_, d_) * 86400 + h_ * 3600 + mi_ * 60 + s_) - off_min * 60) * NS
                 step = same_next_year - rng.randint(25 * 3600 + 60, 60 * 3600) * NS - t
+                if is_feb29(t + step, off_min):
+                    step -= DAY      # (the shift away from 29 February below moves forward, which would shrink the backward jump)
             elif crossed < boundaries and r < 0.35:
                 step = rng.randint(40, 299) * DAY + rng.randrange(86400) * NS
             else:
